@@ -19,6 +19,12 @@ PROPS = {
                 text='Lean theorems about the worklist closure that getBlockedRootFields computes: it is a total function on every graph - cyclic, self-referential or dangling - (termination by a measure on unvisited declared names), everything it returns is reachable (closure_sound), everything reachable is returned (closure_complete), hence the allowed set is exactly the reflexive-transitive closure of the current step\'s dependencies (closure_exact). Tied to /repo by regenerated facts (the loop uses a visited set and no goto; the base-path list) and by a correspondence run over all dependency graphs on 3 steps (quick) / 4 steps (thorough: 2^16) x current step x target plus random graphs up to 12 steps, with the blocked field read at the head, in a filter, in an argument and in a nested group, and the offered root fields compared.',
                 note='the theorem is about the abstract worklist closure (Mp.Deps); the Go loop is tied to it by the extracted facts and the exhaustive small-graph correspondence, not by a translation proof; CUE evaluation of the _dependencies lists is assumed.',
                 assumptions=['cuelang evaluates `_dependencies: [\"a\", ...]` to the listed strings']),
+    'C18': dict(level='proof', theorems=['Mp.isInfix_iff', 'Mp.contains_true_iff', 'Mp.prefix_true_iff', 'Mp.suffix_true_iff', 'Mp.notContains_neg', 'Mp.notPrefix_negOut', 'Mp.notSuffix_neg',
+                                         'Mp.left_take', 'Mp.right_drop', 'Mp.trimLeft_drop', 'Mp.trimRight_take', 'Mp.stringPart_negative', 'Mp.stringPart_fractional'],
+                runner=eval_runner, design='§6/C18',
+                text='Lean theorems over the evaluator model: Contains / Prefix / Suffix on a string receiver are true exactly when the receiver decomposes as a++p++b / p++b / a++p (for byte strings of any length); NotContains / NotPrefix / NotSuffix are the exact negations on every receiver and argument list and fail exactly when the plain form fails; Left / Right / TrimLeft / TrimRight with a whole count below 2^31 are take / drop clamped at the length, and a negative or fractional count is an error. ReplaceAll and the regex functions are decided by correspondence with Go\'s strings / regexp computed independently by the harness (RE2 is not re-proved: delegation only). Tied to /repo by the exhaustive product over strings of length ≤5 over {a,b,c} x needles ≤3 x n in 0..7 and random ASCII / non-ASCII strings, diffed with the model.',
+                note='regex half PARTIAL (Go regexp is the oracle, the model declines those calls); byte-based semantics, "characters" only for ASCII as the property says.',
+                assumptions=['Go regexp (RE2) and strings.ReplaceAll are the reference for DoesMatchRegex / ReplaceRegex / ReplaceAll']),
     'C08': dict(
         level='proof',
         theorems=['Mp.scan_progress', 'Mp.parse_fuel_sufficient', 'Pool.history_independent'],
